@@ -6,7 +6,6 @@ import vlib
 def standard_check(chk, spec):
     tier = chk.tier
     pid = chk.pid
-    cases_dir = os.path.join(chk.bdir, 'cases')
     # 1. translator
     ok_t = chk.srcgen()
     # 2. Coq closure of the property (theorems + the executable correspondence model)
@@ -21,47 +20,59 @@ def standard_check(chk, spec):
         n = sum(len(chk.theorems_of(f)) for f in spec['prop_files'])
         chk.cov['obligations'] = n + len(chk.broken_translation_targets())
         chk.cov['discharged'] = 0
-    # 4. harness against the current tree
-    summ = None
-    exe = chk.go_build(spec['harness'], tags=spec.get('tags', 'verif'))
-    if exe:
-        args = list(spec['args'][tier]) + ['-cases', cases_dir]
-        summ, out = chk.run_harness(exe, args, timeout=spec.get('harness_timeout', {}).get(tier, 900))
+    # 4./5. harness(es) against the current tree, model on the same cases
+    harnesses = spec.get('harnesses') or [{'cmd': spec['harness'], 'args': spec['args'], 'tags': spec.get('tags', 'verif'),
+                                           'search_args': spec.get('search_args')}]
+    built = []
+    for hs in harnesses:
+        name = hs['cmd']
+        cdir = os.path.join(chk.bdir, 'cases_' + name)
+        exe = chk.go_build(name, tags=hs.get('tags', 'verif'))
+        if not exe:
+            continue
+        built.append((hs, exe))
+        args = list(hs['args'][tier]) + ['-cases', cdir]
+        summ, out = chk.run_harness(exe, args, timeout=hs.get('timeout', spec.get('harness_timeout', {})).get(tier, 900))
         if summ is None:
-            chk.broken.append('harness cmd/%s crashed or timed out on the current tree: %s' % (spec['harness'], out.strip()[-400:]))
-        else:
-            chk.absorb(summ, label=spec['harness'])
-            chk.absorb_failures(summ)
-    # 5. model on the same cases
-    if ok_c and summ is not None and summ.get('model_cases', 0) > 0:
-        okf, mism, errs = chk.coq_eval_cases(cases_dir, timeout=spec.get('eval_timeout', {}).get(tier, 900))
-        chk.cov['traces_validated_against_impl'] = summ.get('model_cases', 0) - len(mism) if not errs else 0
-        chk.cov['model_mismatches'] = len(mism)
-        for e in errs:
-            chk.broken.append('correspondence: model evaluation failed: ' + e)
-        if mism:
-            chk.cov['mismatching_cases'] = ['%s#%d' % m for m in mism[:20]]
-            chk.broken.append('correspondence %s: model and implementation differ on %d case(s), e.g. %s case id %d'
-                              % (spec['harness'], len(mism), mism[0][0], mism[0][1]))
+            chk.broken.append('harness cmd/%s crashed or timed out on the current tree: %s' % (name, out.strip()[-400:]))
+            continue
+        chk.absorb(summ, label=name)
+        chk.absorb_failures(summ)
+        if ok_c and summ.get('model_cases', 0) > 0:
+            okf, mism, errs = chk.coq_eval_cases(cdir, timeout=spec.get('eval_timeout', {}).get(tier, 900))
+            if not errs:
+                chk.cov['traces_validated_against_impl'] += summ.get('model_cases', 0) - len(mism)
+            chk.cov['model_mismatches'] += len(mism)
+            for e in errs:
+                chk.broken.append('correspondence %s: model evaluation failed: %s' % (name, e))
+            if mism:
+                chk.cov.setdefault('mismatching_cases', [])
+                chk.cov['mismatching_cases'] += ['%s/%s#%d' % (name, m[0], m[1]) for m in mism[:20]]
+                chk.broken.append('correspondence %s: model and implementation differ on %d case(s), e.g. %s case id %d (%s)'
+                                  % (name, len(mism), mism[0][0], mism[0][1], cdir))
     # 6. extra per-property steps
     if spec.get('extra'):
         spec['extra'](chk, ok_c)
     # 7. something no longer checks and no concrete failing input yet: search
     if chk.broken and not chk.violations and not chk.known_hits_cover_broken():
         chk.log('broken obligation(s)/correspondence; searching for a concrete failing input')
-        if exe and spec.get('search_args'):
-            for s in range(3):
-                summ2, _ = chk.run_harness(exe, list(spec['search_args']) + ['-cases', os.path.join(chk.bdir, 'cases_search')],
-                                           timeout=1200, env={'VERIF_SEED': str(chk.seed * 1000 + 17 + s)})
+        for hs, exe in built:
+            if not hs.get('search_args'):
+                continue
+            for sidx in range(3):
+                summ2, _ = chk.run_harness(exe, list(hs['search_args']) + ['-cases', os.path.join(chk.bdir, 'cases_search_' + hs['cmd'])],
+                                           timeout=1200, env={'VERIF_SEED': str(chk.seed * 1000 + 17 + sidx)})
                 if summ2 is not None:
                     chk.cov['evaluations'] += summ2.get('evaluations', 0)
                     chk.absorb_failures(summ2)
                 if chk.violations:
                     break
+            if chk.violations:
+                break
         if not chk.violations:
             chk.report('broken-obligation', ' ; '.join(chk.broken)[:1500],
                        case={'broken': chk.broken, 'coq_tail': getattr(chk, 'coq_fail_tail', '')[-1500:],
                              'mismatching_cases': chk.cov.get('mismatching_cases', []),
-                             'cases_dir': cases_dir},
+                             'cases_dir': chk.bdir},
                        cls='broken-obligation', stream='obligation', no_input=True)
     return chk.finish(level='proof', assumptions=spec.get('assumptions', []), trusted_extra=spec.get('trusted_extra'))
